@@ -9,8 +9,8 @@ using namespace QtLogger;
 
 namespace {
 
-enum Kind { A1, A2, CNT, FACC, FREJ, M1, M2, MEMPTY, SINK, GACC, GREJ, GMUT, NUL, PIPE_U, PIPE_S, NKINDS };
-const char *KN[] = { "A1", "A2", "C", "F+", "F-", "M1", "M2", "Me", "S", "G+", "G-", "Gm", "null", "pipe", "scoped" };
+enum Kind { A1, A2, CNT, FACC, FREJ, M1, M2, MEMPTY, SINK, GACC, GREJ, GMUT, NUL, MCOND, PIPE_U, PIPE_S, NKINDS };
+const char *KN[] = { "A1", "A2", "C", "F+", "F-", "M1", "M2", "Me", "S", "G+", "G-", "Gm", "null", "Mc", "pipe", "scoped" };
 const int NLEAF = PIPE_U;
 
 struct Node { int kind; std::vector<Node> kids; };
@@ -53,7 +53,13 @@ std::string dshow(const std::vector<Delivery> &v)
 struct Obs { std::vector<Delivery> log; };
 
 struct HA : AttrHandler { int n; HA(int n) : n(n) {}
-    QVariantHash attributes(const LogMessage &) override { return { { QStringLiteral("k%1").arg(n), QStringLiteral("a%1").arg(n) }, { QStringLiteral("shared"), QStringLiteral("A%1").arg(n) } }; } };
+    // A2 returns one key more than A1: a later source with MORE keys than the message holds must still win on the shared key
+    QVariantHash attributes(const LogMessage &) override
+    {
+        QVariantHash h { { QStringLiteral("k%1").arg(n), QStringLiteral("a%1").arg(n) }, { QStringLiteral("shared"), QStringLiteral("A%1").arg(n) } };
+        if (n == 2) h.insert(QStringLiteral("x2"), QStringLiteral("b2"));
+        return h;
+    } };
 struct HC : AttrHandler { int count = 0;
     QVariantHash attributes(const LogMessage &) override { return { { QStringLiteral("cnt"), count++ } }; } };
 struct HF : Filter { bool acc; HF(bool a) : acc(a) {} bool filter(const LogMessage &) override { return acc; } };
@@ -88,6 +94,9 @@ void build(Pipeline *p, const std::vector<Node> &f, Built &b)
                 m.setFormattedMessage(QStringLiteral("G(%1)").arg(m.formattedMessage()));
                 return true; })); break;
         case NUL: p->append({ HandlerPtr() }); break; // initializer-list append keeps null entries
+        case MCOND: p->append(FunctionHandlerPtr::create([](LogMessage &m) {      // a formatter that acts on the first message only: the second one arrives unformatted
+                if (m.message() == QStringLiteral("m1")) m.setFormattedMessage(QStringLiteral("C(%1)").arg(m.formattedMessage()));
+                return true; })); break;
         case PIPE_U: case PIPE_S: {
             auto c = PipelinePtr::create(n.kind == PIPE_S);
             build(c.data(), n.kids, b);
@@ -117,7 +126,7 @@ void refRun(const std::vector<Node> &f, RState &st, RCtx &c, int &sinkCursor, bo
     bool active = live;
     for (auto &n : f) {
         switch (n.kind) {
-        case A1: case A2: if (active) { int k = n.kind == A1 ? 1 : 2; st.attrs[QStringLiteral("k%1").arg(k)] = QStringLiteral("a%1").arg(k); st.attrs[QStringLiteral("shared")] = QStringLiteral("A%1").arg(k); } break;
+        case A1: case A2: if (active) { int k = n.kind == A1 ? 1 : 2; st.attrs[QStringLiteral("k%1").arg(k)] = QStringLiteral("a%1").arg(k); st.attrs[QStringLiteral("shared")] = QStringLiteral("A%1").arg(k); if (k == 2) st.attrs[QStringLiteral("x2")] = QStringLiteral("b2"); } break;
         case CNT: if (active) st.attrs[QStringLiteral("cnt")] = QString::number(c.counter++); break;
         case FACC: case GACC: break;
         case FREJ: case GREJ: active = false; break;
@@ -126,6 +135,7 @@ void refRun(const std::vector<Node> &f, RState &st, RCtx &c, int &sinkCursor, bo
         case GMUT: if (active) { st.attrs[QStringLiteral("g")] = QStringLiteral("G"); st.fmt = QStringLiteral("G(%1)").arg(st.fmt ? *st.fmt : c.raw); } break;
         case SINK: { int id = sinkCursor++; if (active) c.log.push_back({ id, st.fmt ? *st.fmt : c.raw, st.attrs, c.raw }); break; }
         case NUL: break;
+        case MCOND: if (active && c.raw == QStringLiteral("m1")) st.fmt = QStringLiteral("C(%1)").arg(st.fmt ? *st.fmt : c.raw); break;
         case PIPE_U: refRun(n.kids, st, c, sinkCursor, active); break;
         case PIPE_S: { RState saved = st; refRun(n.kids, st, c, sinkCursor, active); st = saved; break; }
         }
